@@ -75,6 +75,12 @@ if not re.search(r"dst->u_hostname\s*=\s*dst->u_buffer", _u):
     missing.append("nni_url_clone_inline u_hostname rebasing in src/core/url.c")
 _clone_null_fixed = bool(re.search(r"if \(src->u_hostname != NULL\) \{\s*dst->u_hostname\s*=", _u))
 
+# bracketed literal: does the scan for ']' reject a nested '['?
+_bl = re.search(r"while \(\*p != '\]'\) \{(.*?)\n\t\t\}", _u, re.S)
+if not _bl:
+    missing.append("IPv6 bracket scan loop in src/core/url.c")
+_bracket_fixed = bool(_bl) and bool(re.search(r"\*p == '\['", _bl.group(1)))
+
 Nat("URL_STATIC_SIZE", _static, "core/url.h: char u_static[NNG_MAXADDRLEN]")
 Nat("URL_HOST_MAX", _hostmax, "url.c: strlen(url->u_hostname) >= k")
 extra_text.append("")
@@ -88,4 +94,5 @@ extra_text.append("(* which known defects of url.c the current source has repair
 extra_text.append("Definition URL_FIX_SCHEME_EXACT : bool := %s.  (* scheme lookup also checks the table entry's length *)" % ("true" if _scheme_exact else "false"))
 extra_text.append("Definition URL_FIX_UTF8_ACCUM : bool := %s.  (* url_utf8_validate accumulates s[0] before s++ *)" % ("true" if _utf8_fixed else "false"))
 extra_text.append("Definition URL_FIX_CLONE_NULL : bool := %s.  (* nni_url_clone_inline tests src->u_hostname for NULL before rebasing it *)" % ("true" if _clone_null_fixed else "false"))
+extra_text.append("Definition URL_FIX_BRACKET : bool := %s.  (* the scan for ']' rejects a '[' inside the brackets *)" % ("true" if _bracket_fixed else "false"))
 extra_text.append("Definition URL_FIX_CLONE_ALLOC : bool := %s.  (* nni_url_clone_inline allocates src->u_bufsz *)" % ("true" if _clone_fixed else "false"))
